@@ -60,7 +60,8 @@ class Forest:
         idx = I.to_num(idx)
         k = idx.key()
         if k not in self.pay:
-            self.pay[k] = Pay(idx, self.log, ROOT if (idx - self.ri).is_zero() else None)
+            is_root = (idx - self.ri).is_zero() or not I.P.feasible(I.P.z(idx) != I.P.z(self.ri))
+            self.pay[k] = Pay(idx, self.log, ROOT if is_root else None)
         return self.pay[k]
 
 
@@ -470,7 +471,8 @@ def h_init(I, fi, add_node_fi, add_idx_fi):
     adds = [e for e in F.log if e[0] == "add-node"]
     P.check("init.only-the-dummy-root", len(graphs) == 1 and f.get("_graph") is graphs[0] and len(adds) == 1 and len(F.log) == 1 and len(made) == 1 and made[0][2] == ROOT,
             "a new tree's graph holds exactly the dummy root", kind="post")
-    P.check("init.prior", isinstance(f.get("_log_prior"), Num) and (alg.is_identically_zero(f["_log_prior"] + alg.slog(G)) or P.z(f["_log_prior"]) == P.z(-alg.slog(G))) and len(made) == 1 and made[0][1] is f["_log_prior"] and made[0][0] is grid,
+    P.check("init.prior", dsl.conj(isinstance(f.get("_log_prior"), Num) and len(made) == 1 and made[0][1] is f["_log_prior"] and made[0][0] is grid,
+                                 True if alg.is_identically_zero(f["_log_prior"] + alg.slog(G)) else P.z(f["_log_prior"]) == P.z(-alg.slog(G))),
             "the grid prior is -log(grid size) and the root's TreeNode is built with it", kind="post")
     ni, nr = f.get("_node_indices"), f.get("_node_indices_rev")
     ok = isinstance(ni, dict) and isinstance(nr, dict) and len(adds) == 1 and list(ni.items()) == [(ROOT, adds[0][3])] and len(nr) == 1 and list(nr.values()) == [ROOT]
@@ -511,5 +513,322 @@ def verify_all(ctx, repo, prop):
     dsl.verify(ctx, repo, R(), prop + ".graph", TR + ".copy", h_copy, expect_covers=["copy"])
     dsl.verify(ctx, repo, R(), prop + ".graph", [TR + ".__init__", TR + "._add_node", TR + "._add_node_to_indices"], h_init, expect_covers=["init"])
     dsl.verify(ctx, repo, R(), prop + ".graph", [TR + ".update", "phyclone.tree.visitors.PostOrderNodeUpdater.__init__", "phyclone.tree.visitors.PostOrderNodeUpdater.finish_vertex"], h_update, expect_covers=["update"])
+    dsl.verify(ctx, repo, R(), prop + ".graph", [TR + ".remove_subtree", TR + ".get_parent"], h_remove_subtree, expect_covers=REMOVE_COVERS)
+    dsl.verify(ctx, repo, R(), prop + ".graph", TR + ".add_subtree", h_add_subtree, expect_covers=["graft.under-root", "graft.under-clone"])
+    dsl.verify(ctx, repo, R(), prop + ".graph", [TR + "._relabel_grafted_subtree_nodes", TR + "._add_node_to_indices"], h_relabel_grafted, expect_covers=RELABEL_COVERS)
     ctx.trust("rustworkx PyDiGraph by its contract as used by Tree (forest: unique root path, successors / predecessors, distinct node indices, shallow copy(), dfs_search finish order)",
               "Tree.get_subtree / add_subtree / remove_subtree / relabel_nodes / from_dict (compose, subgraph, remove_nodes_from, visitors): not under contract (bounded edit-grammar enumeration)")
+
+
+# ----------------------------------------------------------------------------------------------------------- remove_subtree
+
+
+class KeyLog(Model):
+    """a dictionary of the tree abstracted to the record of its deletions / stores / membership questions"""
+
+    def __init__(self, name, log, member=None):
+        self.name, self.log, self.member = name, log, member
+
+    def delitem(self, I, key):
+        self.log.append(("del", self.name, key if isinstance(key, str) else I.to_num(key)))
+
+    def setitem(self, I, key, v):
+        self.log.append(("set", self.name, key if isinstance(key, str) else I.to_num(key), v))
+
+    def getitem(self, I, key):
+        return ("value-of", self.name, key if isinstance(key, str) else I.to_num(key).key())
+
+    def contains(self, I, key):
+        if self.member is None:
+            raise Unsupported("membership in %s" % self.name)
+        return self.member(I, key)
+
+
+def _with_deletes(cls):
+    def delitem(self, I, key):
+        self.F.log.append(("del", type(self).__name__, key if isinstance(key, str) else I.to_num(key)))
+    cls.delitem = delitem
+
+
+_with_deletes(NodeIdx)
+_with_deletes(NodeRev)
+
+
+def h_remove_subtree(I, fi, get_parent_fi):
+    P = I.P
+    t, F = tree_obj(I, fi.cls)
+    whole = P.decide(2) == 1
+    log = F.log
+    t.fields["_data"] = KeyLog("_data", log)
+    sr = alg.sym("sub_root", "Int")
+    m = alg.sym("n_sub_clones", "Int")
+    P.assume(P.z(m) >= 1)
+    idx_map = t.fields["_node_indices"]
+
+    class SubGraph(Model):
+        def m_nodes(self, I_):
+            return SymSeq("subtree-nodes", m, lambda k: Pay(("sub", I_.to_num(k).key()), log, alg.raw_app("sub_name", I_.to_num(k), sort="Int")),
+                          tail=[Pay(("sub-root",), log, ROOT)])
+
+    class Sub(Model):
+        py_classes = ("Tree",)
+
+        def eq(self, I_, other):
+            return whole and other is t
+
+        def a_roots(self, I_):
+            return [sr]
+
+        def a__graph(self, I_):
+            return SubGraph()
+
+    sub = Sub()
+    sri0 = alg.raw_app("idx_of", sr, sort="Int")
+    top_level = P.decide(2) == 1
+    P.assume(P.z(alg.raw_app("parent", sri0, sort="Int")) == P.z(F.ri) if top_level else P.z(alg.raw_app("parent", sri0, sort="Int")) != P.z(F.ri))
+    inits = []
+    I.registry.call_contracts[TR + ".__init__"] = lambda I_, a, k, n: inits.append(a)
+    ups = []
+    I.registry.call_contracts[TR + "._update_path_to_root"] = lambda I_, a, k, n: ups.append((a[1], len(log)))
+
+    class Rx(Model):
+        def m_descendants(self, I_, g, idx):
+            nd = alg.raw_app("n_desc", I_.to_num(idx), sort="Int")
+            I_.P.assume(I_.P.z(nd) >= 0)
+            return SymSeq("descendants(%s)" % I_.to_num(idx).key(), nd, lambda k: alg.raw_app("desc", I_.to_num(idx), I_.to_num(k), sort="Int"))
+
+    I.registry.globals_override["rx"] = Rx()
+
+    def remove_nodes_from(self, I_, xs):
+        log.append(("remove-nodes", self, xs))
+
+    Graph.m_remove_nodes_from = remove_nodes_from
+    I.registry.generic_loops.add(fi.qualname)
+    I.call_function(fi, [t, sub], {}, force_inline=True)
+    if whole:
+        dsl.cover(I, "remove.whole-tree")
+        P.check("remove.whole-tree-resets", len(inits) == 1 and inits[0][0] is t and inits[0][1] == ("grid",) and not log, "removing the whole tree re-initialises it on the same grid", kind="post")
+        return
+    gens = P.ghost.get("generic_indices", [])
+    P.check("remove.one-pass-over-the-subtree's-nodes", len(gens) == 1, "one pass over the nodes of the subtree being removed", kind="post")
+    if len(gens) != 1:
+        return
+    dels = [e for e in log if e[0] == "del"]
+    g = gens[0]
+    is_dummy = not P.feasible(P.z(g) != P.z(m))  # the appended element: the subtree's own dummy root
+    if is_dummy:
+        dsl.cover(I, "remove.dummy-root-skipped")
+        P.check("remove.dummy-root-skipped", not dels, "the subtree's dummy root removes nothing from the tree", kind="post")
+    else:
+        dsl.cover(I, "remove.clone")
+        s = alg.raw_app("sub_name", g, sort="Int")
+        si = alg.raw_app("idx_of", s, sort="Int")
+        ok = len(dels) == 3 and dels[0][1] == "_data" and (dels[0][2] - s).is_zero() and dels[1][1] == "NodeIdx" and (dels[1][2] - s).is_zero() \
+            and dels[2][1] == "NodeRev" and (dels[2][2] - si).is_zero()
+        P.check("remove.clone-forgotten-consistently", ok, "for every clone s of the subtree exactly _data[s], _node_indices[s] and _node_indices_rev[index of s] are deleted (the two maps stay mutually inverse)", kind="post")
+    sri = alg.raw_app("idx_of", sr, sort="Int")
+    rem = [e for e in log if e[0] == "remove-nodes"]
+    okr = len(rem) == 1 and rem[0][1] is t.fields["_graph"] and isinstance(rem[0][2], SymSeq) and rem[0][2].key.startswith("descendants(%s)" % sri.key()) \
+        and len(rem[0][2].tail) == 1 and (I.to_num(rem[0][2].tail[0]) - sri).is_zero()
+    P.check("remove.graph-nodes", okr, "the graph loses exactly the subtree root and its descendants", kind="post")
+    par_idx = alg.raw_app("parent", sri, sort="Int")
+    okp = len(ups) == 1 and ups[0][1] == len(log)
+    if okp:
+        dsl.cover(I, "remove.top-level-subtree" if top_level else "remove.nested-subtree")
+        okp = (ups[0][0] == ROOT) if top_level else (isinstance(ups[0][0], Num) and P.z(ups[0][0]) == P.z(alg.raw_app("name_of", par_idx, sort="Int")))
+    P.check("remove.path-update-from-the-former-parent", okp, "after the removal the recursion values are recomputed from the former parent of the subtree root upwards", kind="post")
+    P.check("remove.nothing-else", not [e for e in log if e[0] in ("add-edge", "remove-edge", "add-node", "set-payload", "set")], "no other change to the graph or the dictionaries", kind="post")
+
+
+REMOVE_COVERS = ["remove.whole-tree", "remove.dummy-root-skipped", "remove.clone", "remove.top-level-subtree", "remove.nested-subtree"]
+
+
+# ----------------------------------------------------------------------------------------------------------- add_subtree
+
+
+def h_add_subtree(I, fi):
+    P = I.P
+    t, F = tree_obj(I, fi.cls)
+    log = F.log
+    under_root = P.decide(2) == 1
+    dsl.cover(I, "graft.under-root" if under_root else "graft.under-clone")
+    parent = None if under_root else alg.sym("parent_name", "Int")
+    dummy = alg.sym("sub_dummy_root_idx", "Int")
+
+    class SubIdx(Model):
+        def getitem(self, I_, key):
+            if key != ROOT:
+                raise Unsupported("subtree index of %r" % (key,))
+            return dummy
+
+    class SubCopy(Model):
+        py_classes = ("Tree",)
+
+        def a__node_indices(self, I_):
+            return SubIdx()
+
+        def a__ROOT_NODE_NAME(self, I_):
+            return ROOT
+
+        def a__graph(self, I_):
+            return ("graph-of-subtree-copy",)
+
+        def a__last_node_added_to(self, I_):
+            return ("last-of-subtree",)
+
+    copies = []
+
+    class Sub(SubCopy):
+        """the subtree as handed in: same observers, so that code which forgets to copy it still runs and is refuted by the postcondition"""
+
+        def m_copy(self, I_):
+            c = SubCopy()
+            copies.append(c)
+            return c
+
+    class MapIdx(Model):
+        def getitem(self, I_, k):
+            return alg.raw_app("new_index", I_.to_num(k), sort="Int")
+
+    mapidx = MapIdx()
+
+    def compose(self, I_, other, edges):
+        log.append(("compose", self, other, edges))
+        return mapidx
+
+    def rnre(self, I_, idx):
+        log.append(("remove-retain", self, I_.to_num(idx)))
+
+    Graph.m_compose = compose
+    Graph.m_remove_node_retain_edges = rnre
+    rel, ups = [], []
+    I.registry.call_contracts[TR + "._relabel_grafted_subtree_nodes"] = lambda I_, a, k, n: rel.append((a, len(log)))
+    I.registry.call_contracts[TR + "._update_path_to_root"] = lambda I_, a, k, n: ups.append((a[1], len(log), len(rel)))
+    I.call_function(fi, [t, Sub()], {} if under_root else {"parent": parent}, force_inline=True)
+    p_idx = F.ri if under_root else alg.raw_app("idx_of", parent, sort="Int")
+    P.check("graft.works-on-a-copy-of-the-subtree", len(copies) == 1, "the grafted nodes are those of a copy: the subtree handed in is not shared with the tree", kind="post")
+    if len(copies) != 1:
+        return
+    ok = len(log) == 2 and log[0][0] == "compose" and log[0][1] is t.fields["_graph"] and log[0][2] == ("graph-of-subtree-copy",) and isinstance(log[0][3], dict) and len(log[0][3]) == 1
+    if ok:
+        (k, v), = log[0][3].items()
+        ok = (I.to_num(k) - p_idx).is_zero() and isinstance(v, tuple) and (I.to_num(v[0]) - dummy).is_zero() and v[1] is None
+    P.check("graft.compose-under-the-parent", ok, "the copy's graph is merged in with one edge: parent -> the copy's dummy root", kind="post")
+    ok2 = len(log) == 2 and log[1][0] == "remove-retain" and (log[1][2] - alg.raw_app("new_index", dummy, sort="Int")).is_zero()
+    P.check("graft.dummy-root-spliced-out", ok2, "the merged dummy root is removed with its edges retained: its children hang under the parent", kind="post")
+    ok3 = len(rel) == 1 and rel[0][0][1] is mapidx and rel[0][0][2] is copies[0] and type(rel[0][0][2]) is SubCopy and (I.to_num(rel[0][0][3]) - dummy).is_zero() and rel[0][1] == 2
+    P.check("graft.names-and-maps-registered", ok3, "then every grafted node is (re)named and registered (contract of _relabel_grafted_subtree_nodes)", kind="post")
+    P.check("graft.last-node", t.fields["_last_node_added_to"] == ("last-of-subtree",), "node_last_added_to is the subtree's", kind="post")
+    okp = len(ups) == 1 and ups[0][1] == 2 and ups[0][2] == 1 and (ups[0][0] == ROOT if under_root else (isinstance(ups[0][0], Num) and (ups[0][0] - alg.raw_app("name_of", p_idx, sort="Int")).is_zero()))
+    P.check("graft.path-update-from-the-parent", okp, "last, the recursion values are recomputed from the attachment point upwards", kind="post")
+
+
+def h_relabel_grafted(I, fi, add_idx_fi):
+    """_relabel_grafted_subtree_nodes: inductive step on an arbitrary grafted node from an arbitrary counter value >= the largest
+    name in use: the node keeps its name iff that name is not in use, otherwise gets counter + 1 (larger than every name in use
+    and every name of the subtree, hence fresh and different from every other grafted node's name); data list and both index maps
+    are registered under the final name; the counter never decreases."""
+    P = I.P
+    t, F = tree_obj(I, fi.cls)
+    log = F.log
+    in_use = z3.Function("name_in_use", z3.IntSort(), z3.BoolSort())
+    M = alg.sym("max_name", "Int")
+    P.assume(P.z(M) >= -1)
+    t.fields["_data"] = KeyLog("_data", log, member=lambda I_, k: SBool(in_use(I_.P.z(I_.to_num(k)))))
+    dummy = alg.sym("sub_dummy_root_idx", "Int")
+    npairs = alg.sym("n_grafted", "Int")
+    P.assume(P.z(npairs) >= 0)
+
+    class SubData(Model):
+        def getitem(self, I_, k):
+            return ("subtree-data", I_.to_num(k).key())
+
+    class SubT(Model):
+        py_classes = ("Tree",)
+
+        def a__data(self, I_):
+            return SubData()
+
+        def a_nodes(self, I_):
+            return [alg.sym("a_subtree_name", "Int")]
+
+    class MapIdx(Model):
+        def m_items(self, I_):
+            def facts(I2, k):
+                return [I2.P.z(alg.raw_app("old_index", I2.to_num(k), sort="Int")) != I2.P.z(dummy)]
+            return SymSeq("grafted", npairs, lambda k: (alg.raw_app("old_index", I_.to_num(k), sort="Int"), alg.raw_app("new_index", alg.raw_app("old_index", I_.to_num(k), sort="Int"), sort="Int")),
+                          facts, tail=[(dummy, alg.raw_app("new_index", dummy, sort="Int"))])
+
+    # first_label = max(self.nodes + subtree.nodes + [-1]) by contract: an upper bound M of every name in use and every subtree name
+    max_args = []
+    I.registry.globals_override["max"] = lambda I_, *a: (max_args.append(a), M)[1]
+
+    def g_nodes(self, I_):
+        return SymSeq("graph-nodes", alg.sym("n_graph_nodes", "Int"), lambda k: Pay(("own", I_.to_num(k).key()), log, alg.raw_app("own_name", I_.to_num(k), sort="Int")))
+
+    Graph.m_nodes = g_nodes
+    renamed = []
+
+    class GPay(Pay):
+        def setattr(self, I_, name, value):
+            if name != "node_id":
+                raise Unsupported("store to TreeNode.%s" % name)
+            renamed.append((self, value))
+            self.name = value
+
+    def loop(I_, node, fr):
+        from pyvc.interp import _Continue
+        seq = I_.eval(node.iter, fr)
+        P.check("relabel.over-the-index-map", isinstance(seq, SymSeq) and seq.key == "grafted", "the loop ranges over the (old index, new index) pairs of the merge", kind="post")
+        fl0 = fr.vars.get("first_label")
+        a0 = max_args[0][0] if len(max_args) == 1 and len(max_args[0]) == 1 else None
+        okmax = isinstance(a0, SymSeq) and a0.key.startswith("[node.node_id for") and len(a0.tail) == 2 and isinstance(a0.tail[0], Num) and a0.tail[0].key() == alg.sym("a_subtree_name", "Int").key() \
+            and I_.to_num(a0.tail[1]).is_const() and I_.to_num(a0.tail[1]).const_value() == -1
+        P.check("relabel.counter-starts-at-the-maximum", isinstance(fl0, Num) and (fl0 - M).is_zero() and okmax, "the counter starts at max(names of the tree ++ names of the subtree ++ [-1])", kind="post")
+        fl = alg.sym(P.fresh_name("counter"), "Int")
+        P.assume(P.z(fl) >= P.z(M), "invariant: the counter is at least the initial maximum")
+        fr.vars["first_label"] = fl
+        k = seq.fresh_index(I_, "pair")
+        old, new = seq.at(I_, k)
+        payload = GPay(I_.to_num(new), log, alg.raw_app("grafted_name", I_.to_num(old), sort="Int"))
+        F.pay[I_.to_num(new).key()] = payload
+        nm0 = payload.name
+        P.assume(P.z(nm0) <= P.z(M), "M bounds the names of the subtree")
+        x = alg.sym("some_name_in_use", "Int")
+        P.assume(z3.Implies(in_use(P.z(x)), P.z(x) <= P.z(M)), "wf: every key of _data is a clone name of the tree or -1, so the maximum bounds the names in use (instance)")
+        I_.assign_target(node.target, (old, new), fr)
+        is_dummy = not P.feasible(P.z(I_.to_num(old)) != P.z(dummy))
+        try:
+            I_.exec_block(node.body, fr)
+        except _Continue:
+            dsl.cover(I_, "relabel.dummy-skipped")
+            P.check("relabel.dummy-skipped", is_dummy and not log and not renamed, "the dummy root of the subtree is skipped", kind="post")
+            raise PathEnd()
+        P.check("relabel.only-the-dummy-is-skipped", not is_dummy, "every other pair is processed", kind="post")
+        fl1 = fr.vars["first_label"]
+        sets = [e for e in log if e[0] == "set"]
+        idx_s, rev_s = t.fields["_node_indices"].stores, t.fields["_node_indices_rev"].stores
+        if renamed:
+            dsl.cover(I_, "relabel.renamed")
+            final = I_.to_num(renamed[0][1])
+            P.check("relabel.renamed-iff-in-use", z3.And(in_use(P.z(nm0)), P.z(final) == P.z(fl) + 1, P.z(I_.to_num(fl1)) == P.z(fl) + 1) if (len(renamed) == 1 and renamed[0][0] is payload) else False,
+                    "a grafted node whose name is in use gets counter + 1 and the counter advances", kind="post")
+            P.check("relabel.new-name-is-fresh", z3.And(P.z(final) > P.z(M), z3.Implies(in_use(P.z(x)), P.z(x) != P.z(final))), "the new name exceeds every name in use and every name of the subtree", kind="post")
+        else:
+            dsl.cover(I_, "relabel.kept")
+            final = nm0
+            P.check("relabel.kept-iff-not-in-use", z3.And(z3.Not(in_use(P.z(nm0))), P.z(I_.to_num(fl1)) == P.z(fl)), "a grafted node whose name is not in use keeps it; the counter is unchanged", kind="post")
+        P.check("relabel.counter-invariant", P.z(I_.to_num(fl1)) >= P.z(M), "the counter stays at least the initial maximum", kind="post")
+        ok = dsl.conj(len(sets) == 1 and sets[0][1] == "_data" and sets[0][3] == ("subtree-data", nm0.key()), P.z(sets[0][2]) == P.z(final)) if sets else False
+        P.check("relabel.data-list-moved", ok, "the node's data list (the subtree's list under the old name) is stored under the final name", kind="post")
+        okm = len(idx_s) == 1 and len(rev_s) == 1 and (idx_s[0][1] - I_.to_num(new)).is_zero() and (rev_s[0][0] - I_.to_num(new)).is_zero()
+        P.check("relabel.index-maps", z3.And(P.z(idx_s[0][0]) == P.z(final), P.z(I_.to_num(rev_s[0][1])) == P.z(final)) if okm else False,
+                "both index maps get (final name <-> new index)", kind="post")
+        raise PathEnd()
+
+    I.registry.loop_invariants[(fi.qualname, 0)] = loop
+
+    I.call_function(fi, [t, MapIdx(), SubT(), dummy], {}, force_inline=True)
+
+
+RELABEL_COVERS = ["relabel.dummy-skipped", "relabel.renamed", "relabel.kept"]
